@@ -320,6 +320,68 @@ CHECKS["C18"] = {
     "explanation": "Scheme-level eq?/string=? results compared with name equality; intern table audited after every forced collection",
 }
 
+CHECKS["C12"] = {
+    "engine": "c12",
+    "level": "exploration",
+    "lanes_quick": [("release", None)],
+    "lanes_thorough": [("release", None)],
+    "timeout_thorough": 3 * 3600,
+    "floors": {"growth_comparisons": 40, "collections_observed": 10000, "drop_scenarios": 6, "quiescent_exactness_checks": 20},
+    "rule": "part 1: one loop template per allocation kind (pairs, vectors, strings, closures and environments, closures called, continuations kept / "
+            "escaped through, code and lambdas compiled by eval, interned symbols, quoted fresh symbols, bignums, promises, mixed, and successive "
+            "top-level evaluations) x live-set size {0, 10, 1000} x n in {10^4} (quick) / {10^4, 10^5} (thorough; eval-based kinds a tenth of that): the "
+            "loop runs n and 10n iterations in fresh VMs and heap capacity, cells in use after a forced collection, stack capacity, host bytes "
+            "(counting allocator), intern-table size and host bytes after dropping the VM are compared. part 2: six programs under schedules "
+            "every-1 / every-7 / random with the auditor's exactness assertion (allocated = reachable) after every forced collection. part 3: the "
+            "same assertion at quiescent points between evaluations. part 4: six cycle-building programs, host bytes after drop(vm). One evaluation "
+            "= one comparison / scheduled run / quiescent check / drop scenario; distinct counts distinct (kind, live set, n) and scenario names.",
+    "assumptions": TRUSTED_COMMON + [
+        "'stops growing' is decided as: capacity after 10n iterations <= 1.5 x capacity after n iterations (one growth step of slack) for n >= 10^4, "
+        "cells in use after a collection within 256 cells, host bytes within 1.6x + 64 KiB, intern table within 64 entries",
+        "fresh global variable names are not a garbage kind: a referenced global is part of the live global environment",
+        "host bytes are counted by a global allocator wrapper installed in the worker binary",
+    ],
+    "explanation": "resource counters (hook stats + counting allocator) compared between n and 10n iterations; auditor exactness after collections; leak check after drop",
+}
+
+CHECKS["C14"] = {
+    "engine": "c14",
+    "level": "exploration",
+    "lanes_quick": [("release", None), ("chk", None)],
+    "lanes_thorough": [("release", None), ("chk", None)],
+    "floors": {"operations": 100000, "forms_compared": 400000, "error_outcomes_compared": 20000},
+    "rule": "a pool of 9 objects bound to globals o0..o8 (proper lists, improper lists, lists sharing tails, association lists, empty / filled / nested / "
+            "aliasing vectors, scalars; an object may only contain objects of lower index, so the pool stays acyclic) and 1-12 operations drawn from "
+            "cons car cdr set-car! set-cdr! list length append reverse list-tail list-ref memq memv member assq assv assoc map for-each list? "
+            "vector make-vector vector-length vector-ref vector-set! vector-fill! vector->list list->vector vector-copy (with start) vector-copy! "
+            "equal? eq?, indices from {-1, 0..4, 100, 10^6, 2^32}. After every operation the whole pool plus the last result is written and "
+            "compared, and half of the time an eq?/eqv? identity probe as well. distinct = distinct session texts that agreed to the end.",
+    "assumptions": MODEL_TRUST + ["memq/assq/memv/assv get only symbols, booleans, (), characters and exact integers as keys; vector-copy's end argument is never passed"],
+    "explanation": "history + executable model (RefScheme pairs and vectors are mutable objects with identity); results, error/no-error status and the "
+                   "contents of every pool object after each operation are compared",
+}
+
+CHECKS["C15"] = {
+    "engine": "c15",
+    "level": "exploration",
+    "lanes_quick": [("release", None), ("chk", None)],
+    "lanes_thorough": [("release", None), ("chk", None)],
+    "floors": {"operations": 200000, "pool_snapshots_compared": 200000, "errors_reported_as_required": 20000},
+    "rule": "a pool of 5 strings over 26 characters of every UTF-8 width (ASCII, 2-, 3-, 4-byte, U+10FFFF, final sigma, titlecase digraph, dotted "
+            "capital I, whitespace, quote, backslash), lengths 0..7, and 1-10 operations from string-length string-ref string-set! substring "
+            "string-copy string-fill! string->list string->vector vector->string list->string string make-string string-append string=? <? >? <=? "
+            ">=? string-ci* (checked against string-foldcase, the R7RS definition) char-ci* (against char-foldcase) case conversion char->integer "
+            "integer->char (across the surrogate range, above 0x10FFFF, negative) char comparisons and predicates; start/end/index from {-1, 0..len-1, "
+            "len, len+1, 10^6}. After every operation the result and the contents of all five strings are compared with the Vec<char> model. "
+            "distinct = distinct operation histories that agreed to the end.",
+    "assumptions": TRUSTED_COMMON + [
+        "a string is a mutable Vec<char>; ranges are valid iff 0 <= start <= end <= length; invalid indices, ranges and scalar values must be errors",
+        "case mapping and character classes are std's (char::to_lowercase etc., trusted base); case-insensitive predicates are specified through foldcase",
+        "string->vector / vector->string are called without range arguments (marwood does not implement them; the property allows an error there)",
+    ],
+    "explanation": "history + executable Vec<char> model with identity, compared after every operation",
+}
+
 # ---- texts for MANIFEST.json (tools/gen_manifest.py) ----
 MANIFEST_TEXT = {}
 NOT_APPLICABLE = {}
@@ -445,4 +507,27 @@ MANIFEST_TEXT["C18"] = {
     "level_text": "Tens of thousands of names of every lexical class, every pair of production routes, within and across evaluations, with collections placed "
                   "at every instruction boundary between the two productions; the intern table is audited after each collection.",
     "level_note": "Trusts the hook, the auditor and marwood's writer for canonical spellings.",
+}
+
+MANIFEST_TEXT["C12"] = {
+    "technique": "runtime monitoring: resource counters at hooks (heap/stack capacity, live cells after a forced collection, counting allocator) compared between n and 10n iterations per allocation kind; heap auditor exactness assertion after collections; host-leak check after drop",
+    "design_ref": "DESIGN.md 6 C12",
+    "level_text": "Boundedness is decided as a relative statement (10n vs n iterations) for every allocation kind and three live-set sizes, so retuning the heap "
+                  "policy is not an alarm; 'no unreachable object remains after a collection' is checked exactly by the independent reachability "
+                  "traversal after thousands of forced collections.",
+    "level_note": "Liveness ('stops growing') is only decided in this bounded form. Trusts the hooks and the allocator wrapper.",
+}
+MANIFEST_TEXT["C14"] = {
+    "technique": "runtime monitoring: operation histories over an aliasing object pool checked against an executable store model with identity, pool contents compared after every operation",
+    "design_ref": "DESIGN.md 6 C14",
+    "level_text": "Hundreds of thousands of operation sequences with hostile indices over shared, nested and empty containers; every operation's result, "
+                  "error status and side effects on every object are compared with the model.",
+    "level_note": "Trusts RefScheme's list/vector primitives (R7RS semantics, about 300 lines).",
+}
+MANIFEST_TEXT["C15"] = {
+    "technique": "runtime monitoring: operation histories over a string pool checked against an executable Vec<char> model, contents compared after every operation",
+    "design_ref": "DESIGN.md 6 C15",
+    "level_text": "Sequences of string/character operations with characters of every byte width and indices around both ends of the valid range; results, "
+                  "required errors and the contents of every string are compared after each step.",
+    "level_note": "Trusts std's Unicode tables and the 300-line model.",
 }
